@@ -253,6 +253,13 @@ def py_def(desc):
     return sd
 
 
+def def_shape(x):
+    """keys (in order) and identity of the leaves of a structure definition"""
+    if isinstance(x, dict):
+        return [(k, def_shape(v)) for k, v in x.items()]
+    return id(x)
+
+
 def tokens(s: str):
     out = []
     for lit, field, spec, conv in string.Formatter().parse(s):
@@ -779,11 +786,15 @@ class Prop:
             return self.run_cyclic(desc, cls, st)
         err = None
         tree = None
+        mutated = False
         real = desc.get("real_seed")       # the real random module + the real fabulist answer; the draws are recorded
         with patched(st, real):
             try:
                 sd = py_def(desc)
+                before = def_shape(sd)
                 tree = cls.build_random_tree(sd)
+                if def_shape(sd) != before:
+                    mutated = True
             except Exception as e:  # noqa: BLE001
                 err = e
         rk = ranks(desc)
@@ -803,6 +814,8 @@ class Prop:
         obs = [type(tree) is TypedTree, H.sx_opt(tree.name if desc.get("name") is not None else None),
                [obs_node(c) for c in (tree._root._children or [])], rk is not None, tree._forward_attrs is True]
         fail = oracle(desc, tree)
+        if fail is None and mutated:
+            fail = "definition: build_random_tree modified the caller's structure definition"
         if fail is None and tree._forward_attrs is not True:
             fail = "class: forward_attrs not set"
         n, depth = tree_stats(tree._root)
